@@ -94,20 +94,16 @@ func shapeClass(name string, v float64) string {
 	}
 }
 
+// xiClass follows the branches of the implementation (xi == 0, support guard
+// for xi >= 0 / xi < 0).
 func xiClass(xi float64) string {
 	switch {
 	case xi == 0:
 		return "xi=0"
-	case math.Abs(xi) < 1e-3:
-		return "xi~0"
 	case xi > 0:
 		return "xi>0"
-	case xi > -1:
-		return "-1<xi<0"
-	case xi == -1:
-		return "xi=-1"
 	default:
-		return "xi<-1"
+		return "xi<0"
 	}
 }
 
@@ -134,10 +130,6 @@ func probClass(p float64) string {
 		return "p=0"
 	case p == 1:
 		return "p=1"
-	case p < 1e-3:
-		return "p~0"
-	case p > 1-1e-3:
-		return "p~1"
 	default:
 		return "0<p<1"
 	}
@@ -170,20 +162,12 @@ func famByName(n string) *family {
 func init() {
 	real := func(p []float64) (float64, float64, bool) { return -inf, inf, false }
 	locScale := func(p []float64) (float64, float64) { return p[0], p[1] }
-	typical := func(p []float64) string { return "typical" }
-	sigmaClass := func(p []float64) string {
-		switch {
-		case p[1] < 0.1:
-			return "sigma<0.1"
-		case p[1] > 10:
-			return "sigma>10"
-		}
-		return "typical"
-	}
+	typical := func(p []float64) string { return "any" }
+	sigmaClass := func(p []float64) string { return "any" }
 	locScaleGen := func(r *prng.Rand) []float64 {
 		return []float64{locGen(r), r.LogUniform(0.01, 100)}
 	}
-	locScaleInvalid := []invalidClass{{"sigma=0", []float64{0.5, 0}}, {"sigma<0", []float64{0.5, -1.5}}}
+	locScaleInvalid := []invalidClass{{"sigma<=0", []float64{0.5, 0}}, {"sigma<=0", []float64{0.5, -1.5}}}
 
 	families = []*family{
 		{
@@ -219,11 +203,11 @@ func init() {
 				return []float64{r.LogUniform(0.01, 100), r.LogUniform(0.05, 50)}
 			},
 			directed: [][]float64{{1, 1}, {2, 3}, {0.5, 0.25}},
-			pclass:   func(p []float64) string { return shapeClass("kappa", p[1]) },
+			pclass:   typical,
 			support:  func(p []float64) (float64, float64, bool) { return p[0], inf, false },
 			center:   func(p []float64) (float64, float64) { return p[0], p[0] * math.Max(1/p[1], 0.05) },
-			invalid: []invalidClass{{"lambda=0", []float64{0, 2}}, {"lambda<0", []float64{-1, 2}},
-				{"kappa=0", []float64{1, 0}}, {"kappa<0", []float64{1, -2}}},
+			invalid: []invalidClass{{"lambda<=0", []float64{0, 2}}, {"lambda<=0", []float64{-1, 2}},
+				{"kappa<=0", []float64{1, 0}}, {"kappa<=0", []float64{1, -2}}},
 		},
 		{
 			name: "gpareto", // (mu, sigma, xi)
@@ -242,7 +226,7 @@ func init() {
 				return p[0], p[0] - p[1]/p[2], false
 			},
 			center:  func(p []float64) (float64, float64) { return p[0], p[1] },
-			invalid: []invalidClass{{"sigma=0", []float64{0.5, 0, 0.5}}, {"sigma<0", []float64{0.5, -1, 0.5}}},
+			invalid: []invalidClass{{"sigma<=0", []float64{0.5, 0, 0.5}}, {"sigma<=0", []float64{0.5, -1, 0.5}}},
 			quadOK:  func(p []float64) bool { return p[2] > -0.9 && p[2] < 1.5 },
 		},
 		{
@@ -265,7 +249,7 @@ func init() {
 				return -inf, inf, false
 			},
 			center:  func(p []float64) (float64, float64) { return p[0], p[1] },
-			invalid: []invalidClass{{"sigma=0", []float64{0.5, 0, 0.5}}, {"sigma<0", []float64{0.5, -1, 0.5}}},
+			invalid: []invalidClass{{"sigma<=0", []float64{0.5, 0, 0.5}}, {"sigma<=0", []float64{0.5, -1, 0.5}}},
 			quadOK:  func(p []float64) bool { return p[2] > -0.9 && p[2] < 1.5 },
 		},
 		{
@@ -281,11 +265,11 @@ func init() {
 				return []float64{a, r.LogUniform(0.01, 100)}
 			},
 			directed: [][]float64{{1, 1}, {2.5, 2}, {0.5, 3}, {0.05, 1}, {150, 0.5}},
-			pclass:   func(p []float64) string { return shapeClass("alpha", p[0]) },
+			pclass:   typical,
 			support:  func(p []float64) (float64, float64, bool) { return 0, inf, false },
 			center:   func(p []float64) (float64, float64) { return p[0] / p[1], math.Sqrt(p[0]) / p[1] },
-			invalid: []invalidClass{{"alpha=0", []float64{0, 1}}, {"alpha<0", []float64{-1, 1}},
-				{"beta=0", []float64{1, 0}}, {"beta<0", []float64{1, -2}}},
+			invalid: []invalidClass{{"alpha<=0", []float64{0, 1}}, {"alpha<=0", []float64{-1, 1}},
+				{"beta<=0", []float64{1, 0}}, {"beta<=0", []float64{1, -2}}},
 		},
 		betaFamily(false), betaFamily(true),
 		{
@@ -302,18 +286,12 @@ func init() {
 				return []float64{p, n}
 			},
 			directed: [][]float64{{0.5, 10}, {0.25, 1}, {0.125, 0}, {0, 5}, {1, 5}, {0.875, 100}},
-			pclass: func(p []float64) string {
-				c := probClass(p[0])
-				if p[1] == 0 {
-					c += ",n=0"
-				}
-				return c
-			},
+			pclass:  func(p []float64) string { return probClass(p[0]) },
 			support: func(p []float64) (float64, float64, bool) { return 0, p[1], true },
 			center: func(p []float64) (float64, float64) {
 				return p[0] * p[1], math.Sqrt(p[1]*p[0]*(1-p[0])) + 1
 			},
-			invalid: []invalidClass{{"theta<0", []float64{-0.25, 5}}, {"theta>1", []float64{1.25, 5}}, {"n<0", []float64{0.5, -1}}},
+			invalid: []invalidClass{{"theta<=0", []float64{-0.25, 5}}, {"theta>1", []float64{1.25, 5}}, {"n<=0", []float64{0.5, -1}}},
 		},
 		{
 			name: "negbinomial", // (r, p): Gamma(r+k)/Gamma(k+1)/Gamma(r) p^k (1-p)^r
@@ -338,8 +316,8 @@ func init() {
 			center: func(p []float64) (float64, float64) {
 				return p[0] * p[1] / (1 - p[1]), math.Sqrt(p[0]*p[1])/(1-p[1]) + 1
 			},
-			invalid: []invalidClass{{"r=0", []float64{0, 0.5}}, {"r<0", []float64{-1, 0.5}},
-				{"p<0", []float64{2, -0.25}}, {"p>1", []float64{2, 1.25}}},
+			invalid: []invalidClass{{"r<=0", []float64{0, 0.5}}, {"r<=0", []float64{-1, 0.5}},
+				{"p<=0", []float64{2, -0.25}}, {"p>1", []float64{2, 1.25}}},
 		},
 		{
 			name: "poisson",
@@ -348,15 +326,10 @@ func init() {
 			},
 			gen:      func(r *prng.Rand) []float64 { return []float64{r.LogUniform(1e-3, 300)} },
 			directed: [][]float64{{1}, {0.25}, {30}},
-			pclass: func(p []float64) string {
-				if p[0] < 1 {
-					return "lambda<1"
-				}
-				return "lambda>=1"
-			},
+			pclass:  typical,
 			support: func(p []float64) (float64, float64, bool) { return 0, inf, true },
 			center:  func(p []float64) (float64, float64) { return p[0], math.Sqrt(p[0]) + 1 },
-			invalid: []invalidClass{{"lambda=0", []float64{0}}, {"lambda<0", []float64{-2}}},
+			invalid: []invalidClass{{"lambda<=0", []float64{0}}, {"lambda<=0", []float64{-2}}},
 		},
 		{
 			name: "geometric", // p (1-p)^k, k >= 0
@@ -376,7 +349,7 @@ func init() {
 			pclass:   func(p []float64) string { return probClass(p[0]) },
 			support:  func(p []float64) (float64, float64, bool) { return 0, inf, true },
 			center:   func(p []float64) (float64, float64) { return (1 - p[0]) / p[0], math.Sqrt(1-p[0])/p[0] + 1 },
-			invalid:  []invalidClass{{"p=0", []float64{0}}, {"p<0", []float64{-0.25}}, {"p>1", []float64{1.25}}},
+			invalid:  []invalidClass{{"p<=0", []float64{0}}, {"p<=0", []float64{-0.25}}, {"p>1", []float64{1.25}}},
 		},
 		{
 			name: "categorical", // theta_0 .. theta_{K-1}
@@ -399,17 +372,10 @@ func init() {
 				return p
 			},
 			directed: [][]float64{{1}, {0.5, 0.5}, {0.25, 0.25, 0.5}, {0.5, 0, 0.5}},
-			pclass: func(p []float64) string {
-				for _, v := range p {
-					if v == 0 {
-						return "with-zero-prob"
-					}
-				}
-				return "typical"
-			},
+			pclass: func(p []float64) string { return "any" },
 			support: func(p []float64) (float64, float64, bool) { return 0, float64(len(p) - 1), true },
 			center:  func(p []float64) (float64, float64) { return float64(len(p)-1) / 2, float64(len(p)) },
-			invalid: []invalidClass{{"theta<0", []float64{-0.25, 1.25}}, {"theta>1", []float64{1.5, 0.5}},
+			invalid: []invalidClass{{"theta<=0", []float64{-0.25, 1.25}}, {"theta>1", []float64{1.5, 0.5}},
 				{"sum!=1", []float64{0.25, 0.25}}, {"empty", []float64{}}},
 		},
 		{
@@ -424,18 +390,10 @@ func init() {
 				return []float64{r.LogUniform(0.1, 200)}
 			},
 			directed: [][]float64{{1}, {2}, {3}, {4.5}},
-			pclass: func(p []float64) string {
-				switch {
-				case p[0] < 2:
-					return "k<2"
-				case p[0] == 2:
-					return "k=2"
-				}
-				return "k>2"
-			},
+			pclass:  typical,
 			support: func(p []float64) (float64, float64, bool) { return 0, inf, false },
 			center:  func(p []float64) (float64, float64) { return p[0], math.Sqrt(2 * p[0]) },
-			invalid: []invalidClass{{"k=0", []float64{0}}, {"k<0", []float64{-2}}},
+			invalid: []invalidClass{{"k<=0", []float64{0}}, {"k<=0", []float64{-2}}},
 		},
 		{
 			name: "exponential", // lambda = rate
@@ -447,7 +405,7 @@ func init() {
 			pclass:   typical,
 			support:  func(p []float64) (float64, float64, bool) { return 0, inf, false },
 			center:   func(p []float64) (float64, float64) { return 1 / p[0], 1 / p[0] },
-			invalid:  []invalidClass{{"lambda=0", []float64{0}}, {"lambda<0", []float64{-2}}},
+			invalid:  []invalidClass{{"lambda<=0", []float64{0}}, {"lambda<=0", []float64{-2}}},
 		},
 		{
 			name: "gengamma", // (a = scale, d, p): p/a^d x^(d-1) exp(-(x/a)^p) / Gamma(d/p)
@@ -458,15 +416,15 @@ func init() {
 				return []float64{r.LogUniform(0.05, 20), r.LogUniform(0.1, 20), r.LogUniform(0.2, 8)}
 			},
 			directed: [][]float64{{1, 1, 1}, {2, 3, 2}, {0.5, 0.5, 1.5}, {1, 2, 2}},
-			pclass:   func(p []float64) string { return shapeClass("d", p[1]) },
+			pclass:   typical,
 			support:  func(p []float64) (float64, float64, bool) { return 0, inf, false },
 			center: func(p []float64) (float64, float64) {
 				k := p[1] / p[2]
 				c := p[0] * math.Pow(k, 1/p[2])
 				return c, c / (p[2] * math.Sqrt(k))
 			},
-			invalid: []invalidClass{{"a=0", []float64{0, 1, 1}}, {"a<0", []float64{-1, 1, 1}}, {"d=0", []float64{1, 0, 1}},
-				{"d<0", []float64{1, -1, 1}}, {"p=0", []float64{1, 1, 0}}, {"p<0", []float64{1, 1, -1}}},
+			invalid: []invalidClass{{"a<=0", []float64{0, 1, 1}}, {"a<=0", []float64{-1, 1, 1}}, {"d<=0", []float64{1, 0, 1}},
+				{"d<=0", []float64{1, -1, 1}}, {"p<=0", []float64{1, 1, 0}}, {"p<=0", []float64{1, 1, -1}}},
 		},
 		{
 			name: "powerlaw", // (alpha, xmin): (alpha-1)/xmin (x/xmin)^-alpha, x >= xmin
@@ -477,16 +435,11 @@ func init() {
 				return []float64{1 + r.LogUniform(0.05, 20), r.LogUniform(0.01, 100)}
 			},
 			directed: [][]float64{{2, 1}, {1.5, 2}, {3.5, 0.5}},
-			pclass: func(p []float64) string {
-				if p[0] < 2 {
-					return "1<alpha<2"
-				}
-				return "alpha>=2"
-			},
+			pclass:  typical,
 			support: func(p []float64) (float64, float64, bool) { return p[1], inf, false },
 			center:  func(p []float64) (float64, float64) { return p[1], p[1] * math.Max(1/(p[0]-1), 0.05) },
-			invalid: []invalidClass{{"alpha=0", []float64{0, 1}}, {"alpha<0", []float64{-1, 1}}, {"alpha=1", []float64{1, 1}},
-				{"0<alpha<1", []float64{0.5, 1}}, {"xmin=0", []float64{2, 0}}, {"xmin<0", []float64{2, -1}}},
+			invalid: []invalidClass{{"alpha<=0", []float64{0, 1}}, {"alpha<=0", []float64{-1, 1}}, {"alpha=1", []float64{1, 1}},
+				{"0<alpha<1", []float64{0.5, 1}}, {"xmin<=0", []float64{2, 0}}, {"xmin<=0", []float64{2, -1}}},
 		},
 		{
 			name: "delta",
@@ -522,8 +475,16 @@ func betaFamily(logScale bool) *family {
 			return []float64{g(), g()}
 		},
 		directed: [][]float64{{1, 1}, {2, 3}, {0.5, 0.5}, {1, 4}, {5, 1}, {0.25, 2}},
-		pclass: func(p []float64) string {
-			return shapeClass("alpha", p[0]) + "," + shapeClass("beta", p[1])
+		pclass: func(p []float64) string { // branches alpha-1 == 0, beta-1 == 0 of the implementation
+			switch {
+			case p[0] == 1 && p[1] == 1:
+				return "alpha=1,beta=1"
+			case p[0] == 1:
+				return "alpha=1"
+			case p[1] == 1:
+				return "beta=1"
+			}
+			return "general"
 		},
 		support: func(p []float64) (float64, float64, bool) {
 			if logScale {
@@ -539,8 +500,8 @@ func betaFamily(logScale bool) *family {
 			}
 			return m, s
 		},
-		invalid: []invalidClass{{"alpha=0", []float64{0, 1}}, {"alpha<0", []float64{-1, 1}},
-			{"beta=0", []float64{1, 0}}, {"beta<0", []float64{1, -2}}},
+		invalid: []invalidClass{{"alpha<=0", []float64{0, 1}}, {"alpha<=0", []float64{-1, 1}},
+			{"beta<=0", []float64{1, 0}}, {"beta<=0", []float64{1, -2}}},
 		thetaSpace: logScale,
 		quadOK:     func(p []float64) bool { return p[1] >= 0.3 }, // (1-x)^(beta-1): the upper end point is not at zero
 	}
